@@ -277,6 +277,18 @@ pub fn run(ctx: &Ctx) -> i32 {
     let single = ctx.open_any("agg.special_fields_skipped");
     // with several shards the other shard's flush worker runs free while one is parked (racing reads)
     let single_shard = ctx.open("race.read_during_unparked_flush");
+    if matches!(ctx.tier, Tier::Thorough) {
+        // the complete table: every pause step x its 1st..3rd crossing over a fixed store shape
+        let mut n = 0;
+        for (step, nth, v, case) in enumerate_steps_cases(true, &steps) {
+            n += 1;
+            if let Verdict::Fail { sig, detail } = v {
+                report.violations.push(Failure { check: "parked-reads".into(), sig: format!("{} [table {} nth={}]", sig, step, nth), detail, case });
+                break;
+            }
+        }
+        report.notes.push(format!("step table: {} (step, nth) cells enumerated", n));
+    }
     if let Some(f) = explore(ctx, "parked-reads", || case_strategy(tier, steps.clone(), single, single_shard), Explore { cases, max_shrink_iters: ctx.tier.pick(100, 400), lanes: ctx.lanes }, &stats, run_case) {
         report.violations.push(f);
     }
@@ -286,9 +298,16 @@ pub fn run(ctx: &Ctx) -> i32 {
 /// Fixed store shape, every pause step x nth: the complete table of step boundaries (thorough tier
 /// and `vcheck c03-table`).
 pub fn enumerate_steps(count_ok: bool) -> Vec<(String, u8, Verdict)> {
+    enumerate_steps_cases(count_ok, &(0..PAUSE_STEPS.len() as u8).collect::<Vec<u8>>()).into_iter().map(|(a, b, c, _)| (a, b, c)).collect()
+}
+
+pub fn enumerate_steps_cases(count_ok: bool, steps: &[u8]) -> Vec<(String, u8, Verdict, Value)> {
     let mut out = vec![];
     for (si, name) in PAUSE_STEPS.iter().enumerate() {
-        for nth in 1u8..=2 {
+        if !steps.contains(&(si as u8)) {
+            continue;
+        }
+        for nth in 1u8..=3 {
             let ev = |i: usize| Ev { ty: 0, ctx: i % 2, vals: vec![json!(i as i64 % 5), json!("a")] };
             let c = Case {
                 cfg: DbConfig { shard_count: 1, event_per_zone: 1, fill_factor: 2, ..DbConfig::default() },
@@ -301,7 +320,7 @@ pub fn enumerate_steps(count_ok: bool) -> Vec<(String, u8, Verdict)> {
             let _ = count_ok;
             let mut rep = CaseReport::default();
             let v = run_case(&c, &mut rep);
-            out.push((name.to_string(), nth, v));
+            out.push((name.to_string(), nth, v, serde_json::to_value(&c).unwrap_or(Value::Null)));
         }
     }
     out
